@@ -624,11 +624,17 @@ struct Tracked {
 
   Tracked() noexcept : Tracked(0) {
   }
+  // Every access of the payload - by the harness or by the library copying, moving and destroying stored values and
+  // functor captures - is reported to the happens-before monitor (fiber engines): reads of the source of a copy, writes
+  // to the source of a move, the destruction as a write.  "Destroyed only after all other accesses" and "moved out
+  // only by the last observer" (C04) thereby become ordering checks under the C++ memory model.
   explicit Tracked(int x) noexcept : magic{kMagic ^ static_cast<u64>(static_cast<u32>(x))}, v{x}, moved{false} {
+    hb::Forget(this);
     g_tracked.live.fetch_add(1, kRlx);
     g_tracked.ctors.fetch_add(1, kRlx);
   }
   Tracked(const Tracked& o) noexcept : magic{o.magic}, v{o.v}, moved{o.moved} {
+    hb::Forget(this);
     if (!o.Good()) {
       g_tracked.bad.fetch_add(1, kRlx);
     }
@@ -636,9 +642,11 @@ struct Tracked {
     g_tracked.ctors.fetch_add(1, kRlx);
   }
   Tracked(Tracked&& o) noexcept : magic{o.magic}, v{o.v}, moved{o.moved} {
+    hb::Forget(this);
     if (!o.Good()) {
       g_tracked.bad.fetch_add(1, kRlx);
     }
+    hb::Write(&o, "payload (moved from)", "C04");
     o.moved = true;
     g_tracked.live.fetch_add(1, kRlx);
     g_tracked.ctors.fetch_add(1, kRlx);
@@ -647,6 +655,7 @@ struct Tracked {
     if (!o.Good() || !Good()) {
       g_tracked.bad.fetch_add(1, kRlx);
     }
+    hb::Write(this, "payload (assigned)", "C04");
     magic = o.magic;
     v = o.v;
     moved = o.moved;
@@ -656,6 +665,8 @@ struct Tracked {
     if (!o.Good() || !Good()) {
       g_tracked.bad.fetch_add(1, kRlx);
     }
+    hb::Write(this, "payload (assigned)", "C04");
+    hb::Write(&o, "payload (moved from)", "C04");
     magic = o.magic;
     v = o.v;
     moved = o.moved;
@@ -666,12 +677,15 @@ struct Tracked {
     if (!Good()) {
       g_tracked.bad.fetch_add(1, kRlx);  // double destruction or corrupted
     }
+    hb::Write(this, "payload (destroyed)", "C04");
+    hb::Forget(this);
     magic = kDead;
     g_tracked.live.fetch_sub(1, kRlx);
     g_tracked.dtors.fetch_add(1, kRlx);
   }
   // canary intact (object constructed, not destroyed, not torn)
   [[nodiscard]] bool Good() const noexcept {
+    hb::Read(this, "payload", "C04");
     return magic == (kMagic ^ static_cast<u64>(static_cast<u32>(v)));
   }
   // readable value: intact and not moved-from
